@@ -109,9 +109,7 @@ impl Scope {
                     buffer.with_write_position_at(*ext_bit_pos, |b| b.write_bit(is_present))?;
                     if is_present {
                         // when we reach this point, there is never zero numbers of ext-fields
-                        buffer.write_normally_small_non_negative_whole_number(
-                            *number_of_ext_fields as u64 - 1,
-                        )?;
+                        buffer.write_normally_small_length(*number_of_ext_fields as u64 - 1)?;
                         let pos = buffer.write_position;
                         for _ in 0..*number_of_ext_fields {
                             if let Err(e) = buffer.write_bit(true) {
@@ -198,14 +196,13 @@ impl Scope {
             } => {
                 if *calls_until_ext_bitfield == 0 {
                     if bits.with_read_position_at(*ext_bit_pos, |b| b.read_bit())? {
-                        let read_number_of_ext_fields = usize::try_from(
-                            bits.read_normally_small_length()?,
-                        )
-                        .ok()
-                        .and_then(|n| n.checked_add(1))
-                        // one presence flag (bit) is transmitted per extension addition
-                        .filter(|n| *n <= bits.remaining())
-                        .ok_or(ErrorKind::EndOfStream)?;
+                        let read_number_of_ext_fields =
+                            usize::try_from(bits.read_normally_small_length()?)
+                                .ok()
+                                .and_then(|n| n.checked_add(1))
+                                // one presence flag (bit) is transmitted per extension addition
+                                .filter(|n| *n <= bits.remaining())
+                                .ok_or(ErrorKind::EndOfStream)?;
                         if read_number_of_ext_fields > *number_of_ext_fields {
                             #[cfg(feature = "descriptive-deserialize-errors")]
                             descriptions.push(ScopeDescription::warning(
